@@ -151,6 +151,11 @@ class World:
                     context = self._ctxs[(id(env), nsval)] = RenderContext(env.from_string(""), globals={"ns": nsval})
             else:
                 context = RenderContext(env.from_string(""), globals={"ns": nsval})
+        elif getattr(self, "reuse_ctx", False):
+            # no namespace through the context: still the same (namespace-free) RenderContext object for every such request
+            context = self.__dict__.setdefault("_ctxs", {}).get((id(env), None))
+            if context is None:
+                context = self._ctxs[(id(env), None)] = RenderContext(env.from_string(""))
         g = None if s["g"] == "none" else {"g": s["g"]}
         try:
             if s["mode"] == "sync":
@@ -357,7 +362,9 @@ def run(tier: str) -> int:
         kinds = (["fs", "choicefs"] if c["Detectable"] == "TRUE" else ["dict", "choice"])
         for bi, b in enumerate(beh):
             for k in kinds:
-                work.append((k, dict(b, _reuse=1) if bi % 2 else b))      # every second behaviour: requests share their RenderContext objects
+                work.append((k, b))
+                if sum(1 for s_ in b["steps"] if s_["op"] != "edit") >= 2:
+                    work.append((k, dict(b, _reuse=1)))      # again, with the requests sharing their RenderContext objects
     res = par.pmap(replay_one, work, chunk=32)
     for (kind, b), bad in zip(work, res):
         ck.case((kind, str(b)), nontrivial=len(b["steps"]) >= 2)
